@@ -126,8 +126,23 @@ class Ctx:
             v_ = self._assumed(subj[2][0])
             if v_[0] == "const" and v_[1] == "bool":
                 return bool(v_[2])
-        if r is None and self.assumptions and subj[0] == "call" and subj[1].split("::")[-1] in ("is_ok_and", "is_some_and") and False:
-            pass
+        if r is None and self.assumptions and subj[0] == "call" and subj[1] in ("std::option::Option::map_or", "std::result::Result::map_or") and len(subj[2]) == 3 and _d < 4:
+            # opt.map_or(D, f) as an Option / Result value (`stopped.then_some(Halted).map_or(Ok(()), Err)`): D where the
+            # world says opt is None, f(payload) where it says Some
+            inner = self._assumed_ok(subj[2][0], _d + 1)
+            if inner is False:
+                return self._assumed_ok(subj[2][1], _d + 1)
+            if inner is True:
+                f_ = subj[2][2]
+                if f_[0] == "fn" and _ctor_of(f_) is not None:
+                    v_ = _ctor_of(f_)[1]
+                    return True if v_ in ("Ok", "Some") else (False if v_ in ("Err", "None") else None)
+                if f_[0] == "closure":
+                    r_ = _closure_on(f_, ok_payload(subj[2][0]))
+                    if r_ is not None:
+                        vals = set(self._assumed_ok(a, _d + 1) for a in (r_[1] if r_[0] == "phi" else (r_,)))
+                        if len(vals) == 1 and None not in vals:
+                            return vals.pop()
         if r is None and self.assumptions and subj[0] == "call" and subj[1] in ("std::option::Option::and_then", "std::result::Result::and_then") and len(subj[2]) == 2 and _d < 4:
             # x.and_then(f) is Some / Ok exactly when x is and f(payload of x) is
             inner = self._assumed_ok(subj[2][0], _d)
@@ -815,8 +830,13 @@ def pass_edges(ctx, guard, prog, depth=3, found=None):
                     params = {i + 1: a for i, a in enumerate(subj[2])}
                     cctx = ctx.sub(cb, params=params)
                     sub_found = []
-                    if guarded(cctx, guard, prog, depth - 1, sub_found)[0] and sub_found:
-                        hit = (okt, errt, "helper:" + cb.key, subj)
+                    if guarded(cctx, guard, prog, depth - 1, sub_found)[0]:
+                        if sub_found:
+                            hit = (okt, errt, "helper:" + cb.key, subj)
+                        elif (guard.boolean or guard.subject) and success_exits(cctx.settle()):
+                            # the helper computes its answer from the test as a VALUE (`flag.then_some(E).map_or(Ok(()), Err)`,
+                            # no branch of its own): it can succeed, and not in the world where the guard fails
+                            hit = (okt, errt, "helper-world:" + cb.key, subj)
         if hit is None and guard.boolean:
             btst = bool_test(atom)
             if btst is not None:
